@@ -11,7 +11,9 @@
 // The cases behind the first serialCases(tier) ones keep SEVERAL consumed messages in flight on one source
 // subscription and make the destination look at its arguments late (concurrent.go). Destination calls are
 // attributed to consumed copies through a context tag (flightKey), so UUIDs may be empty or repeated.
-// The last churnCases(tier) cases are a FanOut whose subscriptions come and go while messages are relayed (churn.go).
+// Then churnCases(tier) cases of a FanOut whose subscriptions come and go while messages are relayed (churn.go).
+// The last gosrcCases(tier) cases put Requeuer, FanIn and Forwarder behind a real GoChannel / FanOut source, whose
+// redelivery after a refused destination call must bring the message as it was published (gosource.go).
 package c17
 
 import (
@@ -31,7 +33,9 @@ func init() {
 	vlib.Register(&vlib.Prop{
 		ID:    "C17",
 		Level: "exploration",
-		Cases: func(tier string) int { return serialCases(tier) + concCases(tier) + churnCases(tier) },
+		Cases: func(tier string) int {
+			return serialCases(tier) + concCases(tier) + churnCases(tier) + gosrcCases(tier)
+		},
 		Rule: "case idx%4 selects the component (0 Forwarder+forwarder.Publisher, 1 FanIn, 2 Requeuer, 3 FanOut); the rest is drawn from the case PRNG: " +
 			"component configuration (forwarder topic default/custom, AckWhenCannotUnwrap, 0-2 pass-through middlewares, own/external router, close timeout; " +
 			"1-4 fan-in source topics; requeuer topic function const/from-metadata(with errors)/from-uuid, delay 0..2ms, own/external router; 1-3 fan-out topics x 0-3 subscriptions, " +
@@ -44,11 +48,16 @@ func init() {
 			"Cases 2000.. (quick: 640) / 160000.. (thorough: 25600) are the several-in-flight classes concurrent/<component> (component rotates with the index): every source topic is delivered by 2-4 deliverers at once (a prefetching subscriber; each still redelivers its own message after a Nack) " +
 			"and the destination reads its arguments late: its calls (Forwarder, FanIn, Requeuer: a gated publisher in front of the recording one; FanIn 1 in 3 and FanOut: hook router.handle.before_publish) are held until every active deliverer's message waits there or the process is quiescent, " +
 			"then all or a random subset is released; the concurrent Forwarder class also publishes stage 1 from 2-3 goroutines through one forwarder.Publisher with a gated outbox (60% when >=2 destination topics). " +
-			"The last 960 (quick) / 25600 (thorough) cases are class churn/fanout: a FanOut (1-2 topics, one serial stream of 6-14 messages each) whose subscriptions come and go while the streams are relayed: per topic 1-3 subscriptions that stay to the end and 1-3 that end (context cancelled) at a random message, " +
+			"The 960 (quick) / 25600 (thorough) cases behind them are class churn/fanout: a FanOut (1-2 topics, one serial stream of 6-14 messages each) whose subscriptions come and go while the streams are relayed: per topic 1-3 subscriptions that stay to the end and 1-3 that end (context cancelled) at a random message, " +
 			"in random subscription order but with the OLDEST subscription of the topic a leaving one in >=3 of 4 cases (every later subscription then moves inside the internal Pub/Sub), 0-2 subscriptions begun right before a random later message of the topic (half of them end again later or at once); 1 in 4 subscriptions nacks a fifth of its messages once or twice, 3 in 10 yield 1-3 times before settling. " +
 			"When the leaving subscription disappears from the internal Pub/Sub is drawn per leave: cancelled before message k is handed over or right after the source saw it acked (teardown runs freely), or cancelled before message k with its removal held at hook gochannel.unsubscribe.before_remove until the internal Publish of message k has just returned (router.handle.before_settle; the releasing goroutine then yields 0-3 times), " +
 			"until the 1st-3rd send of message k to a subscription begins (gochannel.send.locked), or until the source saw message k acked. Judged: the source-side clauses of class fanout, value integrity of everything received, and per (subscription, message of its topic): never more receipts than acked source copies + own Nacks (fanout-invented); " +
 			"a subscription that was subscribed before the message was handed to the FanOut and stays to the end receives exactly that many (fanout-missing, decided by quiescence). Non-trivial: a message was relayed, a subscription stayed, and a subscription left while a later one of its topic existed. " +
+			"The last 800 (quick) / 32000 (thorough) cases are the classes gosource/requeuer, gosource/fanin, gosource/forwarder (component rotates with the index): the relay consumes from a REAL source - a GoChannel (OutputChannelBuffer 0/1/4/64, Persistent 3 in 10, BlockPublishUntilSubscriberAck 4 in 10), or (4 in 10) a FanOut fed by such a GoChannel, started before or after the relay subscribed to it, with 0-2 further workers on the relay's topics that Nack 5 in 10 of their messages once or twice and (half of the workers) edit their copy before the Nack (new metadata keys, another UUID, another payload slice) - " +
+			"and relays to the scripted destination. 3-10 messages as in the component's serial class (Requeuer: every kind of existing counter, decoy keys, topic from const/metadata/uuid, delay 0..1ms, own/external router; FanIn: 1-3 source topics; Forwarder: stage 1 through forwarder.Publisher decorating the source, default/custom topic, 0-2 middlewares, own/external router, 0-2 malformed envelopes when AckWhenCannotUnwrap), published by 1-2 goroutines in Publish calls of 1-3 messages, part of the stream before the relay subscribed when the source is persistent; " +
+			"every message has a destination plan 'k refused calls (error, context.Canceled, panic), then accepted', k = 0 (3 in 10), 1 (3 in 10), 2, 3, 4, 5-7. The case runs until the process is quiescent. Judged: every destination call of a message (refused or accepted, whatever the number of redeliveries before it) carries the computed topic and exactly the value published to the source, the Requeuer's counter raised by exactly one (dest-topic/-uuid/-payload/-metadata, retries); " +
+			"a refused call is followed by another one - the real source gives a Nacked message again (no-redelivery-after-failure), none follows the accepted one (duplicate-relay), a message produces a call at all (not-relayed), nothing else reaches the destination (invented, non-envelope-forwarded); with a blocking GoChannel source no destination call of a message happens after the source's Publish for it returned (ack-before-accept), and that Publish returns (unsettled); " +
+			"every further FanOut worker receives each message of its topic intact at every receipt, 1 + own Nacks times (dest-*, fanout-invented, fanout-missing). Non-trivial: a message came again after a refused destination call and was relayed. " +
 			"Router hook points get random yields. A case is non-trivial when at least one message was relayed and judged AND the case contained a fault or edge " +
 			"(injected destination failure, malformed envelope, existing retries counter, >=2 source topics, >=2 fan-out subscriptions, or an unusual message); a several-in-flight case is non-trivial when a message was relayed and at least one gate round held >=2 destination calls at once; distinct = distinct (component, configuration, message kinds, failure plans, observed settle sequence).",
 		Assumptions: []string{
@@ -62,6 +71,8 @@ func init() {
 			"FanOut cases identify a message at the subscriptions by the metadata key c17-id (UUIDs may be empty or repeated)",
 			"churn/fanout: what a subscription receives of messages relayed before it was subscribed, and what a leaving subscription misses, is not judged (counter churn_received_from_before_join records the former); only the staying subscriptions are owed every message",
 			"churn/fanout: a removal held at the hook is in any case let go when the source has seen the chosen message settled, so no hold can outlast the stream",
+			"gosource/*: messages the relay would Nack for ever by design (no destination topic computable; a non-envelope with AckWhenCannotUnwrap=false) are not generated, a GoChannel redelivers them without end; identity travels in metadata key c17-id (for the Forwarder: of the enveloped message)",
+			"gosource/*: 'the relay Nacked the consumed copy' is observed as the redelivery GoChannel documents for a Nack, 'acknowledged' as the return of a Publish with BlockPublishUntilSubscriberAck (direct GoChannel source, messages published after the relay subscribed); the source Pub/Sub is part of the judged chain: a message must arrive as the statement says relative to what was published to the source",
 			"several-in-flight FanOut cases judge ack-before-accept by counting (acked source copies of a topic < internal Publish calls entered for it), the hook only names the topic",
 		},
 		Run: run,
@@ -78,6 +89,9 @@ func concCases(tier string) int  { return vlib.TierN(tier, 640, 25600) }
 func churnCases(tier string) int { return vlib.TierN(tier, 960, 25600) }
 
 func run(e *vlib.Env) vlib.Result {
+	if e.Idx >= serialCases(e.Tier)+concCases(e.Tier)+churnCases(e.Tier) {
+		return runGoSource(e)
+	}
 	if e.Idx >= serialCases(e.Tier)+concCases(e.Tier) {
 		return runFanOutChurn(e)
 	}
